@@ -619,7 +619,11 @@ func (hp *HTTPProxy) directLocalhost(fn ProxyFunc) ProxyFunc {
 }
 
 func (hp *HTTPProxy) isLocalhost(host string) bool {
-	host = strings.ToLower(host)
+	// The rooted form of a name names the same host, so does an address with a zone.
+	host = strings.TrimSuffix(strings.ToLower(host), ".")
+	if i := strings.IndexByte(host, '%'); i >= 0 && strings.Contains(host, ":") {
+		host = host[:i]
+	}
 
 	if slices.Contains(hp.localhost, host) {
 		return true
